@@ -89,8 +89,12 @@ def c01 (inp obs : Json) : Res :=
     -- exactness is claimed for canonical documents; a document giving both spellings of a natural-language member
     -- loses one of them (recorded finding) and is judged on everything else
     let exactOk := exact || !bothSpellings.isEmpty
+    -- the hypothesis of theorem `rt_canonical`, evaluated on this document: where it holds the implementation's
+    -- output must be the input itself
+    let canonThm := canonB I depth k body
     let specBad : Option String :=
-      if canonical && !exactOk then some "a canonical document did not survive decode → encode unchanged"
+      if canonThm && !(outBody == J.norm (cleanCtx depth body)) then some "the document satisfies canonB (hypothesis of theorem rtDoc_canonical) but the implementation's output is not the document itself (less nested @context members)"
+      else if canonical && !exactOk then some "a canonical document did not survive decode → encode unchanged"
       else if !dropped.isEmpty then some s!"members silently dropped: {dropped}"
       else if needStable && !stable then some "a second round trip changed the document"
       else none
@@ -102,6 +106,6 @@ def c01 (inp obs : Json) : Res :=
     | none =>
       if !agreeBody then { agree := false, specOk := true, why := s!"model {(Json.null).compress} ≠ implementation for type {k}: expected {repr expect |>.pretty 300} got {(jget obs "out").compress}" }
       else if !agreeCtx then { agree := false, specOk := true, why := s!"@context: model {wantCtx}, implementation {gotCtx}" }
-      else { agree := true, specOk := true, nontrivial := true }
+      else { agree := true, specOk := true, nontrivial := true, spec := Json.mkObj [("canonB", canonThm), ("labelledCanonical", canonical)] }
 
 end Drv
